@@ -14,7 +14,7 @@ LEVEL_TEXT = (
     'clears awaiting. Value-level equivalence of is_valid_step and invoke (e.g. resulting object '
     'state after a rejected step) and request-id freshness arithmetic are not decided.')
 
-FLOORS = {'C18-R1': 9, 'C18-R2': 12, 'C18-R3': 8}
+FLOORS = {'C18-R1': 13, 'C18-R2': 12, 'C18-R3': 8}
 
 SPECS = [
     ('semantics::register::Register<T>', 'semantics::register::RegisterRet'),
@@ -201,6 +201,49 @@ def r1_spec_tables(ctx, F):
                                   '(disagreement for object state / payload==state in %s): a step is accepted that '
                                   'invoking the operation could not have returned (or vice versa)' %
                                   (selfty, pr[1], pr[0], diff))
+            # a returned value that carries data (PopOk(v), LenOk(n), ReadOk(v)) can only be accepted after it was
+            # looked at: every accepting path examines the payload - compares it, or branches on its shape
+            from common import possible_results as _pr
+            from taint import Taint
+            with_payload = set(v_['name'] for v_ in F.adts[retadt]['variants'] if v_['fields']) if retadt in F.adts else set()
+            seeds = {}
+            for (i, si, st) in ivs.assigns():
+                rv = st['rv']
+                pl = rv['op']['place'] if rv['k'] in ('use', 'cast') and rv['op'].get('k') in ('copy', 'move') else \
+                    rv['place'] if rv['k'] in ('ref', 'discr') else None
+                if pl is None or st['lhs']['p']:
+                    continue
+                pv = noref(resolve_arg(ivs, ivs.place_val(pl)))
+                if pv.kind == 'arg' and pv.key == 3 and pv.fields():
+                    seeds.setdefault(st['lhs']['l'], set()).add('RET')
+            Tt = Taint(ivs, seeds)
+            examined = set()
+            for i in ivs.live_blocks():
+                for st in ivs.blocks[i]['stmts']:
+                    if st['k'] == 'assign' and st['rv']['k'] == 'bin' and st['rv']['op'] in ('Eq', 'Ne', 'Lt', 'Le', 'Gt', 'Ge'):
+                        if any('RET' in Tt.of_operand(o, i) for o in (st['rv']['a'], st['rv']['b'])):
+                            examined.add(i)
+            for c in ivs.calls:
+                if c.is_('PartialEq::eq', 'PartialEq::ne', 'PartialOrd::lt', 'PartialOrd::le', 'PartialOrd::gt',
+                         'PartialOrd::ge', 'Ord::cmp', 'PartialOrd::partial_cmp') and \
+                        any('RET' in Tt.of_operand(a, c.bb) for a in c.args):
+                    examined.add(c.bb)
+            for sw_ in ivs.switches:
+                on = noref(resolve_arg(ivs, sw_.on))
+                if sw_.kind == 'variant' and on.kind == 'arg' and on.key == 3 and on.fields():
+                    examined.add(sw_.bb)      # branches on the shape of the payload (`PopOk(None)`)
+            for (o, r) in sorted(accepted):
+                if r not in with_payload:
+                    continue
+                blind = ivs.reach_under([(op_sw, o), (ret_sw, r)], [0], cut_blocks=examined)
+                res_b = _pr(ivs, blind)
+                defs_blind = [d for d in ivs.defs.get(0, []) if d[0] in blind]
+                okb = not defs_blind or not ({True, '?'} & set(res_b))
+                ctx.check(okb, rule, 'payload-examined:%s->%s' % (o, r), ivs,
+                          good='%s->%s is accepted only on paths that looked at the returned value' % (o, r),
+                          bad='%s: is_valid_step can accept %s for %s on a path that never looks at the value it '
+                              'carries: a return value invoke could not have produced is accepted, so histories that '
+                              'no sequential execution explains pass as valid' % (selfty, r, o))
             ctx.check(produced == accepted and bool(produced), rule, 'accepted-pairs==produced-pairs', ivs,
                       good='is_valid_step accepts exactly the (op, ret) kinds invoke produces: %s' % sorted(produced),
                       bad='%s: is_valid_step can accept %s but invoke can produce %s: only-accepted %s, '
